@@ -40,11 +40,32 @@ package agd
 //@   modifies nothing
 //@   ensures result == subnetsContain(set, ip)
 
+// profChecks counts the times the profile's own limiter was asked.
+//@ ghost profChecks int
 //@ func (*DefaultRatelimiter).Check
 //@   property C09
 //@   requires r != nil && RC(r.counter)
-//@   modifies r.counter.ring.cur, r.counter.ring.full, elems(r.counter.ring.buf), rlog[r.counter.ring], rk[r.counter.ring]
+//@   modifies r.counter.ring.cur, r.counter.ring.full, elems(r.counter.ring.buf), rlog[r.counter.ring], rk[r.counter.ring], profChecks
+//@   ghostset profChecks = profChecks + 1
+//@   ensures profChecks == old(profChecks) + 1
 //@   let ring = r.counter.ring
 //@   ensures outside-the-profiles-subnets-leaves-its-window-alone: len(r.clientSubnets) > 0 && !subnetsContain(r.clientSubnets, remoteIP) ==>
 //@             res == 3 && rk[ring] == old(rk[ring])
 //@   ensures otherwise-the-window-decides: !(len(r.clientSubnets) > 0 && !subnetsContain(r.clientSubnets, remoteIP)) ==> res == 1 || res == 2
+
+// C09: "large responses count as several events" - also against a profile's
+// own limit: a response is counted as one event per estimated response size,
+// each of them through Check (so an address outside the profile's subnets
+// leaves the profile's window alone, as above).
+//@ import dns github.com/miekg/dns
+// This package's view of the size estimate of a message: a non-negative
+// number (lastMsgLen: what the last estimate was; declared in dnsserver/ratelimit).
+//@ func (*dns.Msg).Len
+//@   modifies lastMsgLen
+//@   ensures result == lastMsgLen && result >= 0
+//@ func (*DefaultRatelimiter).CountResponses
+//@   property C09
+//@   requires r != nil && RC(r.counter) && resp != nil && r.respSzEst > 0
+//@   modifies r.counter.ring.cur, r.counter.ring.full, elems(r.counter.ring.buf), rlog[r.counter.ring], rk[r.counter.ring], profChecks, lastMsgLen
+//@   ensures a-large-response-counts-as-every-one-of-its-estimated-responses: profChecks == old(profChecks) + lastMsgLen / r.respSzEst
+//@   loop 1 invariant r != nil && RC(r.counter) && lastMsgLen >= 0 && 0 <= #n && #n < lastMsgLen / r.respSzEst && profChecks == old(profChecks) + #n
